@@ -7,7 +7,7 @@ use elements::{AssetEntropy, AssetId, AssetIssuance, ContractHash, LockTime, Out
 use serde_json::json;
 
 use crate::engine::*;
-use crate::gen::{self, TxOpts};
+use crate::gen;
 use crate::refimpl::sha256 as r;
 use crate::{ensure, ensure_eq};
 
@@ -66,13 +66,121 @@ fn ids_of(what: &str, f: impl FnOnce() -> (AssetId, AssetId)) -> Result<([u8; 32
     Ok((a.to_byte_array(), b.to_byte_array()))
 }
 
+fn issuance_null(i: &TxIn) -> bool {
+    matches!(i.asset_issuance.amount, Value::Null) && matches!(i.asset_issuance.inflation_keys, Value::Null)
+}
+
 fn issuance_ids(t: &mut Tape, ctx: &mut Ctx) -> R {
     let n = 1 + t.below(3);
     let inputs: Vec<TxIn> = (0..n).map(|_| gen_input(t)).collect();
-    let o = TxOpts { big: false, wellformed: true, ..TxOpts::default() };
-    let tx = Transaction { version: 2, lock_time: LockTime::ZERO, input: inputs.clone(), output: vec![gen::gen_txout(t, &o)] };
+    // (the transaction carries no output: nothing in the statement concerns outputs, and a defect of output
+    // extraction is C08's business; the draw that used to follow here was the last one of the tape)
+    check_inputs(&inputs, ctx)
+}
+
+/// generator of the `issuance_ids_ext` sub-check: adds to `gen_input`
+///  * ordinary outpoints WITHOUT an issuance (pegin flag on half of them, index 2^30-1 included),
+///  * the null outpoint together with a real issuance / reissuance
+fn gen_input_ext(t: &mut Tape) -> TxIn {
+    let kind = t.below(16);
+    let null_outpoint = kind <= 2;
+    let no_issuance = kind == 0 || (3..=8).contains(&kind);
+    let previous_output = if null_outpoint {
+        OutPoint::null()
+    } else {
+        let vout = if no_issuance && t.chance(40) { 0x3fff_ffff } else { gen::gen_vout(t) };
+        OutPoint { txid: gen::gen_txid(t), vout }
+    };
+    let asset_issuance = if no_issuance {
+        // from_txin keeps neither nonce nor entropy of a null issuance: they have to be zero
+        AssetIssuance::null()
+    } else {
+        let mut iss = gen::gen_issuance_nonnull(t);
+        if t.chance(30) {
+            iss.amount = Value::Null;
+            iss.inflation_keys = gen::gen_value_nonnull(t);
+        }
+        iss
+    };
+    let mut is_pegin = !null_outpoint && if no_issuance { t.bool() } else { t.chance(90) };
+    if is_pegin && !no_issuance && previous_output.vout == 0x3fff_ffff {
+        // index 2^30-1 with BOTH flags is the unrepresentable 0xffffffff
+        is_pegin = false;
+    }
+    TxIn { previous_output, is_pegin, script_sig: Script::new(), sequence: Sequence(t.edgy_u32()), asset_issuance, witness: TxInWitness::empty() }
+}
+
+fn issuance_ids_ext(t: &mut Tape, ctx: &mut Ctx) -> R {
+    let n = 1 + t.below(3);
+    let inputs: Vec<TxIn> = (0..n).map(|_| gen_input_ext(t)).collect();
+    check_inputs(&inputs, ctx)?;
+    // A PSET input that carries the explicit issuance amount NEXT TO its commitment (what a blinder that keeps
+    // the explicit value and its proof leaves behind): the amount of the issuance is the commitment, so the
+    // ids of the PSET input and of the input extracted from that PSET are those of a blinded issuance.
+    let pl = gen::pool();
+    for i in inputs.iter() {
+        let conf_amount = matches!(i.asset_issuance.amount, Value::Confidential(_));
+        let conf_keys = matches!(i.asset_issuance.inflation_keys, Value::Confidential(_));
+        if !(conf_amount || conf_keys) || !t.chance(160) {
+            continue;
+        }
+        let mut pi = guard::guard("Input::from_txin", 0, || PsetInput::from_txin(i.clone()))?;
+        let mut what = Vec::new();
+        if conf_amount && (!conf_keys || t.chance(176)) {
+            pi.issuance_value_amount = Some(t.edgy_u64());
+            if t.bool() {
+                pi.in_issuance_blind_value_proof = Some(Box::new(pl.rangeproofs[t.below(pl.rangeproofs.len())].clone()));
+            }
+            what.push("amount");
+        }
+        if conf_keys && (what.is_empty() || t.chance(176)) {
+            pi.issuance_inflation_keys = Some(t.edgy_u64());
+            if t.bool() {
+                pi.in_issuance_blind_inflation_keys_proof = Some(Box::new(pl.rangeproofs[t.below(pl.rangeproofs.len())].clone()));
+            }
+            what.push("keys");
+        }
+        if t.chance(64) {
+            pi.blinded_issuance = Some(t.u8());
+        }
+        let want = ref_ids(i);
+        let a = ids_of("pset::Input::issuance_ids", || pi.issuance_ids())?;
+        ctx.eval();
+        ensure!(
+            a == want,
+            "pset::Input::issuance_ids changes when the explicit issuance {} is stored next to the commitment: got ({}, {}) want ({}, {}) for {:?}",
+            what.join("+"), hex(&a.0), hex(&a.1), hex(&want.0), hex(&want.1), i
+        );
+        let mut p = PartiallySignedTransaction::new_v2();
+        let pi2 = pi.clone();
+        guard::guard("add_input", 0, || p.add_input(pi2))?;
+        match guard::guard("extract_tx", 0, || p.extract_tx())? {
+            Ok(ex) => {
+                ensure!(ex.input.len() == 1, "extract_tx of a one-input PSET gives {} inputs", ex.input.len());
+                let c = ids_of("TxIn::issuance_ids", || ex.input[0].issuance_ids())?;
+                ctx.eval();
+                ensure!(
+                    c == want,
+                    "the input extracted from a PSET whose input holds explicit {} + commitment yields other ids than the PSET input: extracted ({}, {}) pset/reference ({}, {}); extracted input {:?}",
+                    what.join("+"), hex(&c.0), hex(&c.1), hex(&want.0), hex(&want.1), ex.input[0]
+                );
+            }
+            Err(e) => return Err(Failure::new(format!("extract_tx failed on a one-input PSET: {}", e))),
+        }
+        ctx.class(&format!("pset-input:explicit-{}+commitment", what.join("+")));
+        ctx.nontrivial(&(hex(&want.0), hex(&want.1), what.join("+"), pi.issuance_value_amount, pi.issuance_inflation_keys));
+    }
+    Ok(())
+}
+
+fn check_inputs(inputs: &[TxIn], ctx: &mut Ctx) -> R {
+    let tx = Transaction { version: 2, lock_time: LockTime::ZERO, input: inputs.to_vec(), output: vec![] };
     let pset = guard::guard("from_tx", 0, || PartiallySignedTransaction::from_tx(tx.clone()))?;
     let extracted = guard::guard("extract_tx", 0, || pset.extract_tx())?;
+    ensure!(pset.inputs().len() == inputs.len(), "from_tx gives {} PSET inputs for {} transaction inputs", pset.inputs().len(), inputs.len());
+    if let Ok(ex) = &extracted {
+        ensure!(ex.input.len() == inputs.len(), "extract_tx(from_tx(tx)) has {} inputs, tx has {}", ex.input.len(), inputs.len());
+    }
     for (k, i) in inputs.iter().enumerate() {
         let want = ref_ids(i);
         let a = ids_of("TxIn::issuance_ids", || i.issuance_ids())?;
@@ -137,12 +245,26 @@ fn issuance_ids(t: &mut Tape, ctx: &mut Ctx) -> R {
         ensure!(want.0 != want.1, "asset and token id coincide");
         let cls = format!(
             "{}{}{}{}",
-            if i.previous_output.is_null() { "null-outpoint" } else if nonce_zero { "new-issuance" } else { "reissuance" },
+            if i.previous_output.is_null() {
+                if issuance_null(i) { "null-outpoint" } else if nonce_zero { "null-outpoint+new-issuance" } else { "null-outpoint+reissuance" }
+            } else if issuance_null(i) {
+                "no-issuance"
+            } else if nonce_zero {
+                "new-issuance"
+            } else {
+                "reissuance"
+            },
             if i.is_pegin { "+pegin" } else { "" },
             if i.previous_output.vout != 0 && !i.previous_output.is_null() { "+index>0" } else { "" },
             if matches!(i.asset_issuance.amount, Value::Confidential(_)) { "+conf-amount" } else { "" }
         );
         ctx.class(&cls);
+        if i.previous_output.vout == 0x3fff_ffff && i.is_pegin {
+            ctx.class("index=2^30-1+pegin");
+        }
+        if (i.previous_output.is_null() && !issuance_null(i)) || (issuance_null(i) && i.is_pegin) {
+            ctx.nontrivial(&(hex(&want.0), hex(&want.1), i.is_pegin));
+        }
         if !i.previous_output.is_null() && ((nonce_zero && (i.previous_output.vout != 0 || i.is_pegin)) || !nonce_zero || matches!(i.asset_issuance.amount, Value::Confidential(_))) {
             ctx.nontrivial(&(hex(&want.0), hex(&want.1), i.is_pegin));
         }
@@ -173,7 +295,7 @@ fn gen_key(t: &mut Tape, plain: bool) -> String {
     let alphabet: &[char] = if plain {
         &['a', 'b', 'c', 'Z', '0', '9', '_', '-', ' ', 'k']
     } else {
-        &['a', 'b', 'Z', '0', '_', ' ', '"', '\\', '/', '\n', '\t', 'é', '€', '😀', '\u{1}', 'k']
+        &['a', 'b', 'Z', '0', '_', ' ', '"', '\\', '/', '\n', '\t', 'é', '€', '😀', '\u{1}', 'k', '\r', '\u{8}', '\u{c}', '\u{7f}', '\u{1f}']
     };
     (0..n).map(|_| t.choose(alphabet)).collect()
 }
@@ -216,7 +338,33 @@ fn gen_obj(t: &mut Tape, depth: usize, plain: bool) -> J {
     }
     J::Obj(fields)
 }
+/// one object with 20..40 keys k0, k1, ... (of different lengths: "k10" sorts before "k2") in a
+/// tape-shuffled insertion order; small values, now and then a nested small object
+fn gen_wide_obj(t: &mut Tape, plain: bool) -> J {
+    let n = t.range(20, 40);
+    let mut order: Vec<usize> = (0..n).collect();
+    for i in (1..n).rev() {
+        let k = t.below(i + 1);
+        order.swap(i, k);
+    }
+    J::Obj(
+        order
+            .into_iter()
+            .map(|i| {
+                let v = match t.below(8) {
+                    0 => gen_obj(t, 2, plain),
+                    1 => J::Str(gen_key(t, plain)),
+                    _ => J::Int(i as i64),
+                };
+                (format!("k{}", i), v)
+            })
+            .collect(),
+    )
+}
 
+/// JSON string literal as the reference writes it: the escaping rules of the serializer the contract hash is
+/// defined by (short escapes for `"` `\` BS FF LF CR TAB, \u00xx in lower-case hex for the other control
+/// characters, everything else - `/`, DEL, non-ASCII - raw)
 fn esc(s: &str, out: &mut String) {
     out.push('"');
     for c in s.chars() {
@@ -225,6 +373,9 @@ fn esc(s: &str, out: &mut String) {
             '\\' => out.push_str("\\\\"),
             '\n' => out.push_str("\\n"),
             '\t' => out.push_str("\\t"),
+            '\r' => out.push_str("\\r"),
+            '\u{8}' => out.push_str("\\b"),
+            '\u{c}' => out.push_str("\\f"),
             c if (c as u32) < 0x20 => out.push_str(&format!("\\u{:04x}", c as u32)),
             c => out.push(c),
         }
@@ -232,15 +383,17 @@ fn esc(s: &str, out: &mut String) {
     out.push('"');
 }
 
+fn ws_run(t: &mut Tape, ws: bool, out: &mut String) {
+    if ws {
+        for _ in 0..t.below(3) {
+            out.push(t.choose(&[' ', '\n', '\t', '\r']));
+        }
+    }
+}
+
 /// render with key order permuted at every level and whitespace between tokens, both from the tape
 fn render(j: &J, t: &mut Tape, ws: bool, permute: bool, sort: bool, out: &mut String) {
-    let space = |t: &mut Tape, out: &mut String| {
-        if ws {
-            for _ in 0..t.below(3) {
-                out.push(t.choose(&[' ', '\n', '\t', '\r']));
-            }
-        }
-    };
+    let space = |t: &mut Tape, out: &mut String| ws_run(t, ws, out);
     match j {
         J::Null => out.push_str("null"),
         J::Bool(b) => out.push_str(if *b { "true" } else { "false" }),
@@ -297,10 +450,19 @@ fn has_nested_obj(j: &J, depth: usize) -> bool {
         _ => false,
     }
 }
+fn has_float(j: &J) -> bool {
+    match j {
+        J::Float(_) => true,
+        J::Obj(f) => f.iter().any(|(_, v)| has_float(v)),
+        J::Arr(a) => a.iter().any(has_float),
+        _ => false,
+    }
+}
 
 fn json_contracts(t: &mut Tape, ctx: &mut Ctx) -> R {
     let plain = t.bool();
-    let obj = gen_obj(t, 0, plain);
+    let wide = t.chance(10);
+    let obj = if wide { gen_wide_obj(t, plain) } else { gen_obj(t, 0, plain) };
     let mut empty = Tape::new(&[]);
     let mut base = String::new();
     render(&obj, &mut empty, false, false, false, &mut base);
@@ -310,30 +472,51 @@ fn json_contracts(t: &mut Tape, ctx: &mut Ctx) -> R {
     };
     ctx.eval();
     for round in 0..3 {
+        let ws = round != 1;
         let mut s = String::new();
-        render(&obj, t, round != 1, round != 0, false, &mut s);
+        // whitespace around the outermost braces is as insignificant as whitespace inside them (a contract
+        // file usually ends in a newline)
+        ws_run(t, ws, &mut s);
+        let lead = !s.is_empty();
+        render(&obj, t, ws, round != 0, false, &mut s);
+        let before = s.len();
+        ws_run(t, ws, &mut s);
+        if ws && t.chance(64) {
+            s.push('\n');
+        }
+        let trail = s.len() > before;
         let h = match guard::guard("from_json_contract", s.len(), || ContractHash::from_json_contract(&s))? {
             Ok(h) => h.to_byte_array(),
-            Err(e) => return Err(Failure::new(format!("from_json_contract rejected a re-rendering: {} ({})", e, s))),
+            Err(e) => return Err(Failure::new(format!("from_json_contract rejected a re-rendering: {} ({:?})", e, s))),
         };
         ctx.eval();
         ensure!(
             h == h0,
-            "contract hash depends on key order or whitespace\n a={}\n b={}\n hash(a)={} hash(b)={}",
+            "contract hash depends on key order or whitespace\n a={:?}\n b={:?}\n hash(a)={} hash(b)={}",
             base, s, hex(&h0), hex(&h)
         );
+        if lead {
+            ctx.class("rendering:leading-whitespace");
+        }
+        if trail {
+            ctx.class("rendering:trailing-whitespace");
+        }
     }
-    if plain {
-        // sorted compact rendering hashed with the harness SHA-256
+    if !has_float(&obj) {
+        // sorted compact rendering hashed with the harness SHA-256 (numbers are integers, which are written back
+        // digit for digit; floats are left to the invariance oracle)
         let mut sorted = String::new();
         render(&obj, &mut empty, false, false, true, &mut sorted);
         let want = r::sha256(sorted.as_bytes());
-        ensure_eq!(hex(&h0), hex(&want), "contract hash is not SHA-256 of the sorted compact rendering {}", sorted);
-        ctx.class("contract:plain(reference hash)");
+        ensure_eq!(hex(&h0), hex(&want), "contract hash is not SHA-256 of the sorted compact rendering {:?}", sorted);
+        ctx.class(if plain { "contract:plain(reference hash)" } else { "contract:escapes/unicode(reference hash)" });
     } else {
-        ctx.class("contract:escapes/unicode/floats(invariance)");
+        ctx.class("contract:floats(invariance only)");
     }
-    if has_nested_obj(&obj, 0) {
+    if wide {
+        ctx.class("contract:wide-object(20..40 keys)");
+    }
+    if has_nested_obj(&obj, 0) || wide {
         ctx.class("contract:nested-object");
         ctx.nontrivial(&base);
     }
@@ -358,13 +541,22 @@ pub fn property() -> Property {
                hash / entropy, zero and non-zero blinding nonce, null/explicit/confidential amount and inflation keys, \
                optional pegin flag; oracle: TxIn::issuance_ids == pset::Input::from_txin(..).issuance_ids == ids of \
                extract_tx(from_tx(tx)) input == AssetId constructors == harness derivation (own SHA-256 and fast merkle \
-               root). json_contracts: generated objects (nesting <= 3, escapes, non-ASCII, ints, floats, arrays); 3 \
-               re-renderings with permuted keys at every level and inserted whitespace must hash identically; plain subset \
-               == harness SHA-256 of the sorted compact rendering. Non-trivial: new issuance with index>0 or pegin flag, \
-               reissuance, confidential amount; contract with a nested multi-key object; distinct by ids / text.",
+               root). issuance_ids_ext: the same oracle over a generator that adds inputs WITHOUT an issuance on ordinary \
+               outpoints (pegin flag on half of them, index 2^30-1 with the pegin flag included) and the null outpoint \
+               combined with a real new issuance / reissuance; then, for inputs with a confidential amount or confidential \
+               inflation keys, the explicit amount / keys (+ blind proofs, blinded_issuance) are stored next to the commitment \
+               in the PSET input: its ids and the ids of the input extracted from a PSET holding it == derivation with the \
+               blinded-amount token word. json_contracts: generated objects (nesting <= 3, escapes incl. all short escapes and \
+               \\u00xx controls, non-ASCII, ints, floats, arrays; 4 % one wide object of 20..40 keys k0..k39 in shuffled \
+               order); 3 re-renderings with permuted keys at every level and whitespace inserted between tokens AND before / \
+               after the outermost braces (incl. a final newline) must hash identically; every object without floats == \
+               harness SHA-256 of the sorted compact rendering (serializer escaping rules re-implemented). Non-trivial: new \
+               issuance with index>0 or pegin flag, reissuance, confidential amount, no-issuance pegin, null outpoint with \
+               issuance, explicit+commitment PSET input; contract with a nested multi-key or wide object; distinct by ids / text.",
         assumptions: &["harness SHA-256 / fast merkle root as in C18"],
         subs: vec![
-            Sub { name: "issuance_ids", kind: Kind::Tape { max_len: 1500, quick: 600_000, thorough: 5_000_000, f: issuance_ids } },
+            Sub { name: "issuance_ids", kind: Kind::Tape { max_len: 1500, quick: 400_000, thorough: 4_000_000, f: issuance_ids } },
+            Sub { name: "issuance_ids_ext", kind: Kind::Tape { max_len: 1500, quick: 300_000, thorough: 3_000_000, f: issuance_ids_ext } },
             Sub { name: "json_contracts", kind: Kind::Tape { max_len: 1200, quick: 300_000, thorough: 2_000_000, f: json_contracts } },
         ],
         known: vec![Known { key: KF_PSET_FLAGS, what: "pset::Input::issuance_ids hashes the outpoint index including the pegin/issuance flag bits", repro: repro_pset_flags }],
